@@ -20,7 +20,8 @@ THEOREMS = {
         "C05_perfect_bias", "C05_perfect_diff", "C05_perfect_ratio", "C05_perfect_rmse", "C05_perfect_cmae",
         "C05_perfect_stderror", "C05_perfect_nsec", "C05_perfect_nnsec", "C05_perfect_alphaindex",
         "C05_perfect_dmb", "C05_perfect_mbias", "C05_perfect_derror", "C05_bound_mae", "C05_bound_rmse",
-        "C05_bound_stderror", "C05_bound_nsec", "C05_bound_alphaindex", "C05_declared_perfect"]],
+        "C05_bound_stderror", "C05_bound_nsec", "C05_bound_alphaindex", "C05_declared_perfect",
+        "C05_selectWithin", "C05_fromfield_obs_by_fcst", "C05_fromfield_fcst_by_obs", "C05_obsfcst_by_obs"]],
     "Proofs.GenEq.Det": ["VerifModel.GenEq.Det.%s_eq" % n for n in TRANSLATED],
 }
 TRUSTED_BASE = [
@@ -107,6 +108,24 @@ def gen_ops(tier, rng):
             yield "metric.perfect", "det %s mean %s %s" % (m, xvec(obs), xvec(obs))
     for m in TRANSLATED + HAND + IMPL_ONLY:
         yield "metric.meta", "detperfect %s" % m
+    # the compute_single layer: which cases a metric sees under -x obs / -x fcst / ordinary axes
+    singles = ["obs", "fcst", "within", "mae", "bias", "rmse", "corr", "ef", "diff"]
+    for _ in range(250 if tier == "quick" else 5000):
+        L = rng.choice([1, 2, 3, 5, 8])
+        vals = [0.0, 0.5, 1.0, 1.5, 2.0, 3.0, 4.5, float("nan")]
+        obs = [rng.choice(vals) for _ in range(L)]
+        fcst = [rng.choice(vals) for _ in range(L)]
+        lo = rng.choice([-1.0, 0.0, 0.5, 1.0, 2.0])
+        hi = lo + rng.choice([0.5, 1.0, 2.0, 5.0])
+        le, ue = rng.choice([0, 1]), rng.choice([0, 1])
+        if rng.random() < 0.2:
+            lo = float("-inf")
+        if rng.random() < 0.2:
+            hi = float("inf")
+        for m in rng.sample(singles, 4):
+            ax = rng.choice(["obs", "fcst", "no"]) if m != "within" else "no"
+            agg = rng.choice(["mean", "median", "sum", "min", "max"]) if m in ("obs", "fcst", "mae", "bias") else "mean"
+            yield "metric.single", "single %s %s %s %s:%s:%d:%d %s %s" % (m, agg, ax, xr(lo), xr(hi), le, ue, xvec(obs), xvec(fcst))
 
 
 def impl(op):
@@ -123,6 +142,30 @@ def impl(op):
         if a[0] == "detperfect":
             m = verif.metric.get(a[1])
             return "ERR" if m.perfect_score is None else xr(m.perfect_score)
+        if a[0] == "single":
+            import verif.axis
+            import verif.interval
+            import datagen as dg
+            obs, fcst = from_xvec(a[5]), from_xvec(a[6])
+            n = len(obs)
+            I = {"times": [0.0], "leads": [float(k) for k in range(n)], "locs": [(1.0, 50.0, 10.0, 0.0)],
+                 "fields": {"obs": np.array(obs, float).reshape(1, n, 1), "fcst": np.array(fcst, float).reshape(1, n, 1)}}
+            data = dg.build_data(dg.DS([I], {}))
+            m = verif.metric.get(a[1])
+            m.aggregator = verif.aggregator.get(a[2])
+            lo, hi, le, ue = a[4].split(":")
+            iv = verif.interval.Interval(from_xr(lo), from_xr(hi), le == "1", ue == "1")
+            axis = verif.axis.get(a[3])
+            try:
+                r = m.compute_single(data, 0, axis, None, iv)
+            except ValueError as e:
+                if "zero-size" in str(e) or "empty" in str(e).lower():
+                    return "EMPTY"
+                raise
+            except IndexError:
+                return "EMPTY"
+            r = float(r)
+            return xr(r)
     raise ValueError(op)
 
 
@@ -157,6 +200,8 @@ def cmp(op, impl_out, model_out):
     a = op.split(" ")
     if a[0] == "det" and a[1] in IMPL_ONLY:
         return True
+    if a[0] == "single":
+        return impl_out == model_out or _close(impl_out, model_out, 1e-9)
     if a[0] != "det":
         return impl_out == model_out
     if _zero_variance_rounding(a, impl_out):
@@ -182,8 +227,74 @@ ORIENT = {"mae": -1, "rmse": -1, "cmae": -1, "stderror": -1, "derror": -1, "alph
           "nsec": 1, "nnsec": 1, "kge": 1, "corr": 1, "rankcorr": 1, "kendallcorr": 1}
 
 
+def _single_oracle(a):
+    """documented selection: the metric is evaluated on the cases where every field it needs is present and,
+    under -x obs / -x fcst, the observation / forecast lies in the interval"""
+    name, agg, ax = a[1], a[2], a[3]
+    lo, hi, le, ue = a[4].split(":")
+    lo, hi, le, ue = from_xr(lo), from_xr(hi), le == "1", ue == "1"
+    obs, fcst = from_xvec(a[5]), from_xvec(a[6])
+
+    def inside(x):
+        return (x > lo or (le and x == lo)) and (x < hi or (ue and x == hi))
+    fin = lambda x: not (math.isnan(x) or math.isinf(x))
+    need_obs = name != "fcst" or ax == "obs"
+    need_fcst = name != "obs" or ax == "fcst"
+    rows = [(o, f) for o, f in zip(obs, fcst) if (fin(o) or not need_obs) and (fin(f) or not need_fcst)]
+    if ax == "obs":
+        rows = [r for r in rows if inside(r[0])]
+    elif ax == "fcst":
+        rows = [r for r in rows if inside(r[1])]
+    return name, agg, rows, inside
+
+
+def _agg_py(agg, v):
+    v = sorted(v) if agg == "median" else v
+    if agg == "mean":
+        return sum(v) / len(v)
+    if agg == "sum":
+        return sum(v)
+    if agg == "min":
+        return min(v)
+    if agg == "max":
+        return max(v)
+    n = len(v)
+    return v[n // 2] if n % 2 else (v[n // 2 - 1] + v[n // 2]) / 2.0
+
+
 def judge(op, impl_out, spec_out):
     a = op.split(" ")
+    if a[0] == "single":
+        name, agg, rows, inside = _single_oracle(a)
+        if impl_out.startswith("EXC:") or impl_out.startswith("EXIT:"):
+            return ({"kind": "exception", "metric": name, "layer": "single"}, "%s ended in %s" % (op[:200], impl_out))
+        if impl_out == "EMPTY":
+            if rows:
+                return ({"kind": "single-selection", "metric": name}, "no cases selected but %d qualify" % len(rows))
+            return ({"kind": "empty-aggregate", "agg": agg}, "the aggregator was applied to an empty selection and raised")
+        v = from_xr(impl_out)
+        want = None
+        if not rows:
+            # nothing selected: undefined statistics must be NaN; a sum over nothing is 0 (FromField only)
+            want = 0.0 if (agg == "sum" and name in ("obs", "fcst") and a[3] != "no") else float("nan")
+        elif name in ("obs", "fcst"):
+            want = _agg_py(agg, [r[0] if name == "obs" else r[1] for r in rows])
+        elif name == "mae":
+            want = _agg_py(agg, [abs(o - f) for o, f in rows])
+        elif name == "bias":
+            want = _agg_py(agg, [f - o for o, f in rows])
+        elif name == "rmse":
+            want = math.sqrt(sum((o - f) ** 2 for o, f in rows) / len(rows))
+        elif name == "ef":
+            want = sum(1 for o, f in rows if o < f) / len(rows)
+        elif name == "diff":
+            want = sum(f for o, f in rows) / len(rows) - sum(o for o, f in rows) / len(rows)
+        elif name == "within":
+            want = 100.0 * sum(1 for o, f in rows if inside(abs(o - f))) / len(rows)
+        if want is not None and not num_close(v, want, 1e-9, 1e-12):
+            return ({"kind": "single-selection", "metric": name},
+                    "%s -x %s: got %r, the documented selection of cases gives %r" % (name, a[3], v, want))
+        return None
     if impl_out.startswith("EXC:") or impl_out.startswith("EXIT:"):
         return ({"kind": "exception", "metric": a[1]}, "%s ended in %s" % (op[:200], impl_out))
     if a[0] == "detperfect":
